@@ -176,6 +176,9 @@ class ExprMixin:
                                               or (self.symbolic_globals is not True and nm in self.symbolic_globals)):
                     return nf.sym(f'{m.name}.{nm}')      # the physical constants stay symbols (H, C, K); other numbers are values
                 return self.e_Constant(val, None)
+            if isinstance(val, ast.Constant) and isinstance(val.value, str) and len(val.value) <= 16 and \
+                    not any(isinstance(n_, ast.Global) and nm in n_.names for n_ in ast.walk(m.tree)):
+                return Const(val.value)          # _COLORS = 'RGB': a string constant
             seq_of_callables = isinstance(val, (ast.Tuple, ast.List)) and val.elts and \
                 all(isinstance(v_, (ast.Lambda, ast.Name, ast.Attribute)) for v_ in val.elts) and \
                 all(isinstance(v_, ast.Lambda) or (dotted(v_) or '').split('.')[-1] in
@@ -337,6 +340,14 @@ class ExprMixin:
             if known is not None:
                 return Const(known if op == 'is' else not known)
             return app(op, P(a), P(b))
+        if op in ('eq', 'ne'):
+            # x.dtype.kind == 'c' is np.iscomplexobj(x)
+            for u, v in ((a, b), (b, a)):
+                ua = u.single_atom() if isinstance(u, Poly) else None
+                if isinstance(v, Const) and v.value == 'c' and ua is not None and ua[0] == 'attr' and ua[2] == 'kind' \
+                        and ua[1][0] == 'attr' and ua[1][2] == 'dtype':
+                    t = app('iscomplexobj', Poly.atom(ua[1][1]))
+                    return t if op == 'eq' else app('not', t)
         if isinstance(a, Tup) and isinstance(b, Tup) and op in ('eq', 'ne'):
             if len(a) != len(b):
                 return Const(op == 'ne')
